@@ -7,150 +7,128 @@ Require Import BS.Common.Util BS.C17.Model BS.C17.Lemmas.
 
 (* ------------------------------------------------------------------ *)
 (* multiReader *)
-
-(* The property FAILS of the faithful model: rows that a sub-reader returns
-   together with EOF (allowed by the Reader contract, sliceio/reader.go:42-44)
-   are dropped. *)
-Theorem multi_delivers_refuted :
-  exists q ds, demands_ok ds /\
-    final_of (run multi_read (mkMulti q SOk) ds) = SEof /\
-    outs_of (run multi_read (mkMulti q SOk) ds) <> sem_multi q.
-Proof.
-  exists [[EofWith [[1%Z]]]], [1]. split; [repeat constructor|].
-  vm_compute. split; [reflexivity|discriminate].
-Qed.
-
-(* the guard that excludes the defect: no response carries rows together with EOF *)
-Definition clean (s : script) : Prop := forall l, In (EofWith l) s -> l = [].
-
-Lemma up_read_clean s d o st s' :
-  clean s -> up_read s d = (o, st, s') -> clean s' /\ (st = SEof -> o = []).
-Proof.
-  intros Hc H. destruct s as [|[l|l|e] r]; simpl in H.
-  - inversion H; subst. split; auto.
-  - destruct (length l <=? d); inversion H; subst; (split; [|discriminate]).
-    + intros x Hx. apply Hc. right. exact Hx.
-    + intros x [Hx|Hx]; [discriminate|]. apply Hc. right. exact Hx.
-  - assert (l = []) by (apply Hc; left; reflexivity). subst l. simpl in H.
-    inversion H; subst. split; [intros x []|reflexivity].
-  - inversion H; subst. split; [exact Hc|discriminate].
-Qed.
-
 Definition qfails (q : list script) : bool := existsb fails q.
 
 Lemma qmeas_cons s q : qmeas (s :: q) = Datatypes.S (smeas s + qmeas q).
 Proof. reflexivity. Qed.
 
 Lemma multi_loop_spec d : 1 <= d -> forall fuel q o s q',
-  qmeas q < fuel -> Forall clean q ->
+  qmeas q < fuel ->
   multi_loop fuel q d = (o, s, q') ->
   length o <= d /\
   match s with
-  | SOk => o <> [] /\ sem_multi q = o ++ sem_multi q' /\ Forall clean q' /\
+  | SOk => o <> [] /\ sem_multi q = o ++ sem_multi q' /\
            qfails q' = qfails q /\ qmeas q' < qmeas q
   | SEof => o = [] /\ sem_multi q = [] /\ qfails q = false
   | SErr _ => prefix o (sem_multi q) /\ qfails q = true
   | SFuel => False
   end.
 Proof.
-  intro Hd. induction fuel as [|fuel IH]; intros q o s q' Hf Hc H; [lia|].
+  intro Hd. induction fuel as [|fuel IH]; intros q o s q' Hf H; [lia|].
   destruct q as [|s0 q0]; simpl in H.
   - inversion H; subst. simpl. repeat split; auto; lia.
   - destruct (up_read s0 d) as [[rows st] s1] eqn:E.
     destruct (up_read_spec _ _ _ _ _ Hd E) as [Hl Hs].
-    inversion Hc as [|? ? Hc0 Hcq]; subst.
-    destruct (up_read_clean _ _ _ _ _ Hc0 E) as [Hc1 He].
     unfold sem_multi, qfails in *. rewrite qmeas_cons in Hf. cbn [map concat existsb].
     destruct st.
     + destruct Hs as (HR & HF & HM).
       destruct rows as [|r rows']; cbn [is_nil] in H.
-      * apply IH in H; [|rewrite qmeas_cons; lia|constructor; auto].
+      * apply IH in H; [|rewrite qmeas_cons; lia].
         destruct H as [Hlo Hs]. split; [exact Hlo|].
         cbn [map concat existsb] in Hs. rewrite qmeas_cons in Hs. rewrite HR. simpl app.
         destruct s; auto.
-        -- destruct Hs as (Hne & Hsem & Hcl & Hqf & Hqm). rewrite HF in Hqf.
+        -- destruct Hs as (Hne & Hsem & Hqf & Hqm). rewrite HF in Hqf.
            repeat split; auto. rewrite qmeas_cons. lia.
         -- rewrite HF in Hs. exact Hs.
         -- rewrite HF in Hs. exact Hs.
       * inversion H; subst. split; [exact Hl|].
         split; [discriminate|]. cbn [map concat existsb]. rewrite HR, HF, app_assoc.
         repeat split; auto. rewrite !qmeas_cons. lia.
-    + destruct Hs as (HR & HF & _). specialize (He eq_refl). rewrite He in HR.
-      apply IH in H; [|lia|auto].
-      destruct H as [Hlo Hs]. split; [exact Hlo|].
-      rewrite HR, HF. simpl app. simpl orb.
-      destruct s; auto.
-      destruct Hs as (Hne & Hsem & Hcl & Hqf & Hqm). repeat split; auto. rewrite qmeas_cons. lia.
+    + destruct Hs as (HR & HF & _).
+      destruct rows as [|r rows']; cbn [is_nil] in H.
+      * (* an exhausted reader: popped, the loop goes on *)
+        apply IH in H; [|lia].
+        destruct H as [Hlo Hs]. split; [exact Hlo|].
+        rewrite HR, HF. simpl app. simpl orb.
+        destruct s; auto.
+        destruct Hs as (Hne & Hsem & Hqf & Hqm). repeat split; auto. rewrite qmeas_cons. lia.
+      * (* last rows together with EOF: popped, the rows are delivered *)
+        inversion H; subst. split; [exact Hl|].
+        split; [discriminate|]. rewrite HR, HF. simpl orb.
+        repeat split; auto. rewrite qmeas_cons. lia.
     + inversion H; subst. destruct Hs as (-> & HF & _).
       split; [simpl; lia|]. split; [apply prefix_nil|]. rewrite HF. reflexivity.
     + destruct Hs.
 Qed.
 
-Definition multi_inv (st : multi_st) : Prop := mu_err st = SOk /\ Forall clean (mu_q st).
+Definition multi_inv (st : multi_st) : Prop := mu_err st = SOk.
 
 Lemma multi_step :
   step_ok multi_st multi_read multi_inv (fun st => sem_multi (mu_q st))
           (fun st => qfails (mu_q st)) (fun st => qfails (mu_q st)) (fun st => qmeas (mu_q st)).
 Proof.
-  intros st d o s st' [HE HC] Hd H. unfold multi_read in H. rewrite HE in H.
+  intros st d o s st' HE Hd H. unfold multi_read in H. unfold multi_inv in HE. rewrite HE in H.
   destruct (multi_loop (Datatypes.S (qmeas (mu_q st))) (mu_q st) d) as [[rows s0] q'] eqn:E.
   inversion H; subst; clear H.
   apply (multi_loop_spec d Hd) in E; auto.
   destruct E as [Hl Hs]. split; [exact Hl|].
   destruct s; simpl.
-  - destruct Hs as (Hne & Hsem & Hcl & Hqf & Hqm). repeat split; auto.
+  - destruct Hs as (Hne & Hsem & Hqf & Hqm). repeat split; auto.
   - destruct Hs as (-> & Hsem & Hqf). auto.
   - exact Hs.
   - exact Hs.
 Qed.
 
-(* for upstreams that never return rows together with EOF: the concatenation *)
-Theorem multi_delivers_partial q ds :
-  Forall clean q -> demands_ok ds ->
+(* the logical concatenation of the inputs, for all scripts: empty reads are
+   skipped, rows returned together with EOF are delivered *)
+Theorem multi_delivers q ds :
+  demands_ok ds ->
   delivers (run multi_read (mkMulti q SOk) ds) ds (sem_multi q) (qfails q).
 Proof.
-  intros HC H.
-  exact (generic_delivers _ _ _ _ _ _ _ multi_step ds (mkMulti q SOk) (conj eq_refl HC) H).
+  intro H. exact (generic_delivers _ _ _ _ _ _ _ multi_step ds (mkMulti q SOk) eq_refl H).
 Qed.
 (* empty upstream reads and exhausted readers are skipped: no livelock *)
-Theorem multi_progress_partial q ds :
-  Forall clean q -> demands_ok ds -> qmeas q < length ds ->
+Theorem multi_progress q ds :
+  demands_ok ds -> qmeas q < length ds ->
   final_of (run multi_read (mkMulti q SOk) ds) <> SOk.
 Proof.
-  intros HC H L.
-  exact (generic_progress _ _ _ _ _ _ _ multi_step ds (mkMulti q SOk) (conj eq_refl HC) H L).
+  intros H L. exact (generic_progress _ _ _ _ _ _ _ multi_step ds (mkMulti q SOk) eq_refl H L).
 Qed.
-Theorem multi_chunking_irrelevant_partial q1 q2 ds1 ds2 :
-  Forall clean q1 -> Forall clean q2 -> sem_multi q1 = sem_multi q2 ->
+Theorem multi_total q ds :
+  demands_ok ds -> qmeas q < length ds -> qfails q = false ->
+  outs_of (run multi_read (mkMulti q SOk) ds) = sem_multi q /\
+  final_of (run multi_read (mkMulti q SOk) ds) = SEof.
+Proof.
+  intros H L F. exact (generic_total _ _ _ _ _ _ _ multi_step ds (mkMulti q SOk) eq_refl H L F).
+Qed.
+Theorem multi_chunking_irrelevant q1 q2 ds1 ds2 :
+  sem_multi q1 = sem_multi q2 ->
   demands_ok ds1 -> demands_ok ds2 ->
   final_of (run multi_read (mkMulti q1 SOk) ds1) = SEof ->
   final_of (run multi_read (mkMulti q2 SOk) ds2) = SEof ->
   outs_of (run multi_read (mkMulti q1 SOk) ds1) = outs_of (run multi_read (mkMulti q2 SOk) ds2).
 Proof.
-  intros C1 C2 HR H1 H2. eapply delivers_chunking.
-  - apply multi_delivers_partial; eauto.
-  - rewrite HR. apply multi_delivers_partial; eauto.
+  intros HR H1 H2. eapply delivers_chunking.
+  - apply multi_delivers; eauto.
+  - rewrite HR. apply multi_delivers; eauto.
 Qed.
-(* unconditionally: never more rows than asked, and never fuel exhaustion *)
-Theorem multi_calls_bounded q ds :
-  calls_bounded (run multi_read (mkMulti q SOk) ds) ds.
+
+(* witness of the defect repaired by commit d00fa90: the old readers dropped
+   the rows that a sub-reader returned together with EOF (allowed by the
+   Reader contract, sliceio/reader.go:42-44) *)
+Theorem multi_read_dropping_lost_rows :
+  exists q ds, demands_ok ds /\
+    final_of (run multi_read_dropping (mkMulti q SOk) ds) = SEof /\
+    outs_of (run multi_read_dropping (mkMulti q SOk) ds) <> sem_multi q.
 Proof.
-  assert (L : forall fuel q d o s q', multi_loop fuel q d = (o, s, q') -> length o <= d).
-  { induction fuel as [|fuel IH]; intros q0 d o s q' H; destruct q0 as [|s0 q0]; simpl in H;
-      try (inversion H; subst; simpl; lia).
-    destruct (up_read s0 d) as [[rows st] s1] eqn:E. pose proof (up_read_len _ _ _ _ _ E).
-    destruct st; try (inversion H; subst; simpl; lia).
-    - destruct (is_nil rows); [eapply IH; eauto|inversion H; subst; lia].
-    - eapply IH; eauto. }
-  assert (G : forall ds0 st, calls_bounded (run multi_read st ds0) ds0).
-  { clear ds. induction ds0 as [|d ds IH]; intro st; simpl; auto.
-    destruct (multi_read st d) as [[o s] st'] eqn:E.
-    assert (length o <= d).
-    { unfold multi_read in E. destruct (mu_err st); try (inversion E; subst; simpl; lia).
-      destruct (multi_loop _ _ _) as [[rows s0] q'] eqn:El. inversion E; subst. eapply L; eauto. }
-    destruct s; simpl; auto. }
-  apply G.
+  exists [[EofWith [[1%Z]]]], [1]. split; [repeat constructor|].
+  vm_compute. split; [reflexivity|discriminate].
 Qed.
+(* ... and the repaired reader delivers them on the same input *)
+Example multi_read_keeps_rows_returned_with_eof :
+  outs_of (run multi_read (mkMulti [[EofWith [[1%Z]]]] SOk) [1; 1]) = [[1%Z]] /\
+  final_of (run multi_read (mkMulti [[EofWith [[1%Z]]]] SOk) [1; 1]) = SEof.
+Proof. vm_compute. split; reflexivity. Qed.
 
 (* ------------------------------------------------------------------ *)
 (* taskBufferReader *)
